@@ -230,14 +230,15 @@ def run(chk, prog):
     idf = prog.fn("vfps::Identity::apply", nparams=0)
     chk.used(idf)
     s = I.scan(idf)
-    cp = [c for c in s.calls if c.callee == "std::copy_n"]
-    A.require(len(cp) == 1, "Identity::apply: expected one copy_n")
-    c = cp[0]
-    ln = S.norm(c.args[1]) if c.args[1] is not None else None
+    from .common import bulk_copies
+    cp = bulk_copies(s)
+    A.require(len(cp) == 1, "Identity::apply: expected one block copy (copy_n / copy / memcpy)")
+    src_, ln_, dst_, line_ = cp[0]
+    ln = S.norm(ln_) if ln_ is not None else None
     ok = ln is not None and sp.expand(ln - S.N * S.N * S.B) == 0
-    chk.check(ok, "R4", A.loc(idf, {"line": c.line}), "Identity copies B*N*N cells (length %s)" % ln, "Identity:length:%s" % ln)
-    okd = str(c.args[0]) == "getData(_in)" and str(c.args[2]) == "getData(_out)"
-    chk.check(okd, "R4", A.loc(idf, {"line": c.line}), "Identity copies from the input grid's data to the output grid's data",
+    chk.check(ok, "R4", A.loc(idf, {"line": line_}), "Identity copies B*N*N cells (length %s)" % ln, "Identity:length:%s" % ln)
+    okd = str(src_) == "getData(_in)" and str(dst_) == "getData(_out)"
+    chk.check(okd, "R4", A.loc(idf, {"line": line_}), "Identity copies from the input grid's data to the output grid's data",
               "Identity:direction")
 
     # ---- R5 -------------------------------------------------------------------------------
@@ -253,6 +254,21 @@ def run(chk, prog):
     h = uniq([a for a in s.accesses if a.kind == "load" and a.base == "_hinfo" and a.idx is not None])
     din = uniq([a for a in s.accesses if a.kind == "load" and a.base == "data_in" and a.idx is not None])
     dout = [a for a in s.accesses if a.kind == "store" and a.base == "data_out" and a.idx is not None]
+    # a second store into the destination that runs only under a condition on the data (a column skipped and zeroed when its profile
+    # looks empty, a cell clipped) replaces transported values by a constant: the step is then no weighted sum of the source cells
+    if len(dout) > 1:
+        main_ = [a for a in dout if a.value is not None and any(str(t).startswith("value") or "SUM" in str(t) or "h.weight" in str(t) for t in [a.value] + list(a.value.free_symbols))]
+        extra = [a for a in dout if a not in main_[:1]]
+        if len(main_) >= 1:
+            base_g = {(g_["id"] if isinstance(g_, dict) and "id" in g_ else str(g_), pol) for g_, pol in main_[0].guards}
+            for a in extra:
+                own_g = [(g_, pol) for g_, pol in a.guards if ((g_["id"] if isinstance(g_, dict) and "id" in g_ else str(g_)), pol) not in base_g and
+                         isinstance(g_, dict) and g_.get("k") not in ("SwitchCase", "Catch")]
+                const_val = a.value is not None and not a.value.free_symbols
+                if own_g and const_val:
+                    chk.fail("R5", A.loc(fa, {"line": a.line}), "FokkerPlanckMap::apply stores the constant %s into destination cells under the condition `%s`: those cells do not "
+                             "receive the weighted sum of their source cells" % (a.value, A.show(own_g[0][0])[:60]), "FP::apply:conditional-constant-store")
+                    dout = [b for b in dout if b is not a]
     A.require(len(h) == 1 and len(din) == 1 and len(dout) == 1, "FokkerPlanckMap::apply: accesses not found (%d table reads, %d grid reads, %d grid writes)" % (len(h), len(din), len(dout)))
     h, din, dout = h[0], din[0], dout[0]
     # the three cell loops by what they do to the destination index, not by what they are called: stride N*N = bunch, N = column (x), 1 = energy row (y)
